@@ -40,15 +40,17 @@ D6 = ['plain'] + D5
 V4 = ['shared2', 'reprerr', 'tagged', 'usesve']
 V6 = V4 + ['uni', 'uniau']
 HIST_CONFIGS = [
-    ('load3', cfg(LoadOps=['load', 'load_all'], GenOps=['load_all'], Docs=D5[1:], MaxHist=3), 'q'),
+    ('load3', cfg(LoadOps=['load', 'load_all'], GenOps=['load_all'], Docs=['tagdir', 'usetag', 'anchors'], MaxHist=3), 'q'),
     ('load3t', cfg(LoadOps=['load', 'load_all'], GenOps=['load_all'], Docs=D5 + ['ctorerr'], MaxHist=3), 't'),
-    ('load2c', cfg(LoadOps=['load', 'load_all'], GenOps=['load_all'], Backends=['c'], Docs=D5 + ['ctorerr'], MaxHist=2), 'q'),
+    ('load2c', cfg(LoadOps=['load', 'load_all'], GenOps=['load_all'], Backends=['c'], Docs=D5, MaxHist=2), 'q'),
     ('load3c', cfg(LoadOps=['load', 'load_all'], GenOps=['load_all'], Backends=['c'], Docs=D5 + ['ctorerr'], MaxHist=3), 't'),
     ('cross', cfg(LoadOps=['load'], Classes=['base', 'safe', 'full', 'unsafe'], Backends=['py', 'c'],
-                  Docs=['pyobj', 'rec', 'stdtag', 'deepfail'], MaxHist=2), 'qt'),
+                  Docs=['pyobj', 'rec', 'deepfail'], MaxHist=2), 'q'),
+    ('crosst', cfg(LoadOps=['load'], Classes=['base', 'safe', 'full', 'unsafe'], Backends=['py', 'c'],
+                   Docs=['pyobj', 'rec', 'stdtag', 'deepfail'], MaxHist=2), 't'),
     ('cross3', cfg(LoadOps=['load'], Classes=['safe', 'full', 'unsafe'], Backends=['py', 'c'], Docs=['pyobj', 'rec'], MaxHist=3), 't'),
     ('ops2', cfg(LoadOps=ALL_LOAD, GenOps=['parse', 'compose_all'], Docs=['tagdir', 'usetag', 'anchors', 'usealias'], MaxHist=2), 'q'),
-    ('ops2c', cfg(LoadOps=ALL_LOAD, GenOps=['scan', 'compose_all'], Backends=['c'], Docs=['tagdir', 'usetag', 'anchors', 'usealias'],
+    ('ops2c', cfg(LoadOps=ALL_LOAD, GenOps=['scan', 'compose_all'], Backends=['c'], Docs=['tagdir', 'usetag', 'usealias'],
                   MaxHist=2), 'q'),
     ('ops2t', cfg(LoadOps=ALL_LOAD, GenOps=ALL_GEN, Backends=['py', 'c'], Docs=['tagdir', 'usetag', 'anchors', 'usealias', 'scanerr'],
                   MaxHist=2), 't'),
@@ -74,14 +76,19 @@ HIST_CONFIGS = [
 STREAM_CONFIGS = [
     ('streams3', cfg(LoadOps=['load_all', 'compose_all', 'parse', 'scan'], Backends=['py', 'c'], Docs=['plain'] + D5[1:], MaxHist=1,
                      MaxStream=3), 'q'),
-    ('streams2', cfg(LoadOps=['load_all', 'compose_all', 'parse', 'scan'], Backends=['py', 'c'], Docs=DOCS_ALL[:14], MaxHist=1,
+    ('streams2', cfg(LoadOps=['load_all', 'compose_all', 'parse', 'scan'], Backends=['py', 'c'],
+                     Docs=['scanerr', 'parseerr', 'comperr', 'ctorerr', 'yamldir', 'tagdir', 'usetag', 'stdtag', 'rec', 'paths'], MaxHist=1,
                      MaxStream=2), 'q'),
     ('streams2t', cfg(LoadOps=['load_all', 'compose_all', 'parse', 'scan'], Classes=['safe', 'unsafe', 'base'], Backends=['py', 'c'],
                       Docs=DOCS_ALL[:14], MaxHist=1, MaxStream=2, Impls=[True, False]), 't'),
     ('streams3t', cfg(LoadOps=['load_all', 'compose_all', 'parse', 'scan'], Backends=['py', 'c'], Docs=DOCS12[:2] + DOCS12[3:5] + DOCS12[6:],
                       MaxHist=1, MaxStream=3), 't'),
-    ('vstreams3', cfg(DumpOps=['dump_all', 'serialize_all', 'emit'], Classes=['user'], Backends=['py', 'c'],
-                      Vals=['plainv', 'shared2', 'reprerr', 'tagged', 'usesve', 'scalarv'], MaxHist=1, MaxStream=3), 'q'),
+    ('vstreams3d', cfg(DumpOps=['dump_all'], Classes=['user'], Backends=['py', 'c'],
+                       Vals=['plainv', 'shared2', 'tagged', 'usesve', 'scalarv'], MaxHist=1, MaxStream=3), 'q'),
+    ('vstreams3s', cfg(DumpOps=['serialize_all'], Classes=['user'], Backends=['py', 'c'],
+                       Vals=['plainv', 'shared2', 'tagged', 'usesve', 'scalarv'], MaxHist=1, MaxStream=3), 'q'),
+    ('vstreams3e', cfg(DumpOps=['emit'], Classes=['user'], Backends=['py', 'c'],
+                       Vals=['plainv', 'shared2', 'tagged', 'usesve', 'scalarv'], MaxHist=1, MaxStream=3), 'q'),
     ('vstreams3t', cfg(DumpOps=['dump_all', 'serialize_all', 'emit'], Classes=['user'], Backends=['py', 'c'],
                        Vals=['plainv', 'shared', 'shared2', 'recv', 'reprerr', 'tagged', 'usesve', 'umrepr', 'scalarv'], MaxHist=1,
                        MaxStream=3), 't'),
@@ -263,6 +270,19 @@ def _init_worker():
     _G0[0] = api_world.globals_digest()
 
 
+def submit(pool, kind, items, chunk=40):
+    parts = [items[i:i + chunk] for i in range(0, len(items), chunk)]
+    return pool.map_async(_work, [(kind, p) for p in parts], chunksize=1)
+
+
+def collect(ar):
+    out = [o for res in ar.get() for o in res]
+    for o in out:
+        if 'crash' in o:
+            raise SystemExit('machinery failure: harness child crashed:\n' + o['crash'])
+    return [o['ok'] for o in out]
+
+
 def pmap(pool, kind, items, chunk=40):
     parts = [items[i:i + chunk] for i in range(0, len(items), chunk)]
     out = []
@@ -307,7 +327,7 @@ def main(tier, replay=None):
     t0 = time.time()
     # the worker processes are created first, while this process is still small: their forks stay cheap
     pool = mp.get_context('fork').Pool(16, initializer=_init_worker)
-    ex = ThreadPoolExecutor(max_workers=6)
+    ex = ThreadPoolExecutor(max_workers=8)
     # ---- (a)-(c) design checks, started in the background
     micro = cfg(LoadOps=ALL_LOAD, GenOps=['load_all', 'parse'], DumpOps=ALL_DUMP, Classes=['user'], Backends=['py', 'c'],
                 IOs=['file'], Docs=['comperr', 'tagdir', 'usetag', 'rec', 'ugen'], Vals=['shared2', 'reprerr', 'tagged', 'usesve', 'urepr'],
@@ -321,7 +341,7 @@ def main(tier, replay=None):
                      Docs=['comperr', 'ctorerr', 'tagdir', 'usetag', 'anchors', 'usealias', 'ugen'],
                      Vals=['shared2', 'reprerr', 'tagged', 'usesve', 'urepr'], MaxHist=3, Faults=True, KeepHist=False)
     futs = {'micro': ex.submit(run_tlc, 'C11_micro', 'MC_Api_design.cfg', micro, 4, 1500, True),
-            'design': ex.submit(run_tlc, 'C11_design', 'MC_Api_hist.cfg', design, 4 if tier == 'quick' else 8, 2400)}
+            'design': ex.submit(run_tlc, 'C11_design', 'MC_Api_hist.cfg', design, 6 if tier == 'quick' else 8, 2400)}
     muts = MUTATIONS if tier == 'thorough' else MUTATIONS[:0]
     for m, _ in muts:
         futs['mut_' + m] = ex.submit(run_tlc, 'C11_mut_' + m, 'MC_Api_hist.cfg', dict(SENS, Mutation=m), 2, 900)
@@ -329,11 +349,18 @@ def main(tier, replay=None):
     # ---- (d), (e) MBT configurations
     hist_cfgs = [(n, c) for n, c, tiers in HIST_CONFIGS if letter in tiers]
     stream_cfgs = [(n, c) for n, c, tiers in STREAM_CONFIGS if letter in tiers]
-    mbt = {n: ex.submit(run_tlc, 'C11_' + n, 'MC_Api_mbt.cfg', c, 3, 2400) for n, c in hist_cfgs + stream_cfgs}
+    order = sorted(hist_cfgs + stream_cfgs, key=lambda x: 0 if x[0].startswith(('vstreams', 'streams', 'load')) else 1)
+    mbt = {n: ex.submit(run_tlc, 'C11_' + n, 'MC_Api_mbt.cfg', c, 3, 2400) for n, c in order}
 
-    histories, streams = [], []
-    for n, c in hist_cfgs + stream_cfgs:
-        r = mbt[n].result()
+    # every configuration is replayed as soon as its TLC run is done (the pool works while the other TLC runs go on)
+    from concurrent.futures import as_completed
+    from ..drivers.api_world import VALS, IS_LOAD
+    fresh_keys, fresh_jobs, hist_jobs = {}, [], []
+    part_keys, part_jobs, whole_jobs = {}, [], []
+    names = {mbt[n]: (n, c) for n, c in hist_cfgs + stream_cfgs}
+    for fut in as_completed(list(names)):
+        n, c = names[fut]
+        r = fut.result()
         if r.violated:
             sys.stdout.write(r.out[-3000:])
             raise SystemExit('machinery failure: Api.tla violates %s in MBT configuration %s (the model is wrong)' % (r.violated, n))
@@ -345,26 +372,55 @@ def main(tier, replay=None):
         if len(cs) != r.distinct - 1:
             raise SystemExit('machinery failure: %d test cases parsed, TLC found %d states in %s' % (len(cs), r.distinct, n))
         if (n, c) in hist_cfgs:
-            histories += [(n, h) for h in cs]
+            hs = [(n, h) for h in cs]
+            new = {}
+            for _, h in hs:
+                nexts = {}
+                for e in h:
+                    st = e['step']
+                    if st['t'] == 'next':
+                        nexts[st['g']] = nexts.get(st['g'], 0) + 1
+                    if st['t'] in ('call', 'next'):
+                        k = fresh_key(st, nexts.get(st['g'], 0))
+                        if hashable(k) not in fresh_keys:
+                            fresh_keys[hashable(k)] = new[hashable(k)] = k
+            nk = list(new)
+            fresh_jobs.append((nk, submit(pool, 'fresh', [new[k] for k in nk], 40)))      # every distinct step alone, fresh fork
+            hist_jobs.append((hs, submit(pool, 'hist', [h for _, h in hs], 25)))            # each history in one forked interpreter
         else:
-            streams += [(n, h[0]) for h in cs]
+            ws, new = [], {}
+            for h in cs:
+                e = h[0]
+                st = e['step']
+                if st['t'] != 'call':
+                    continue
+                a = st['arg']
+                if st['op'] in IS_LOAD:
+                    parts = [dict(st, arg={'docs': [d], 'impl': bool(j == 0 and a['impl'])}) for j, d in enumerate(a['docs'])]
+                else:
+                    if any(VALS[x][3] != VALS[a[0]][3] for x in a) or \
+                            (st['op'] != 'emit' and any(VALS[x][:2] != VALS[a[0]][:2] for x in a)):
+                        continue        # per-call options differ between the whole call and the part (spec: SameOpts)
+                    parts = [dict(st, arg=[x]) for x in a]
+                for q in parts:
+                    if hashable(stepkey(q)) not in part_keys:
+                        part_keys[hashable(stepkey(q))] = new[hashable(stepkey(q))] = q
+                ws.append((n, st, parts, e['res']))
+            nk = list(new)
+            part_jobs.append((nk, submit(pool, 'stream', [new[k] for k in nk], 40)))
+            whole_jobs.append((ws, submit(pool, 'stream', [st for _, st, _, _ in ws], 50)))
     t_tlc = time.time() - t0
-
-    # fresh results of every distinct step
-    fresh_keys = {}
-    for n, h in histories:
-        nexts = {}
-        for e in h:
-            st = e['step']
-            if st['t'] == 'next':
-                nexts[st['g']] = nexts.get(st['g'], 0) + 1
-            if st['t'] in ('call', 'next'):
-                k = fresh_key(st, nexts.get(st['g'], 0))
-                fresh_keys.setdefault(hashable(k), k)
-    fk = list(fresh_keys)
-    fresh = dict(zip(fk, pmap(pool, 'fresh', [fresh_keys[k] for k in fk])))
-    # histories, each in one forked interpreter
-    obs = pmap(pool, 'hist', [h for _, h in histories], chunk=25)
+    fresh, pres, histories, obs, wholes, wres = {}, {}, [], [], [], []
+    for nk, ar in fresh_jobs:
+        fresh.update(zip(nk, collect(ar)))
+    for hs, ar in hist_jobs:
+        histories += hs
+        obs += collect(ar)
+    for nk, ar in part_jobs:
+        pres.update(zip(nk, collect(ar)))
+    for ws, ar in whole_jobs:
+        wholes += ws
+        wres += collect(ar)
     traces, drift, nontrivial, drift_samples = [], 0, 0, []
     for (n, h), o in zip(histories, obs):
         steps, nexts = [], {}
@@ -385,26 +441,6 @@ def main(tier, replay=None):
             nontrivial += 1
         traces.append({'kind': 'hist', 'g0': o['g0'], 'steps': steps})
     # streams against their documents alone
-    part_keys, wholes = {}, []
-    for n, e in streams:
-        st = e['step']
-        if st['t'] != 'call':
-            continue
-        from ..drivers.api_world import VALS, IS_LOAD
-        a = st['arg']
-        if st['op'] in IS_LOAD:
-            parts = [dict(st, arg={'docs': [d], 'impl': bool(j == 0 and a['impl'])}) for j, d in enumerate(a['docs'])]
-        else:
-            if any(VALS[x][3] != VALS[a[0]][3] for x in a) or \
-                    (st['op'] != 'emit' and any(VALS[x][:2] != VALS[a[0]][:2] for x in a)):
-                continue        # per-call options differ between the whole call and the part (spec: SameOpts)
-            parts = [dict(st, arg=[x]) for x in a]
-        for p in parts:
-            part_keys.setdefault(hashable(stepkey(p)), p)
-        wholes.append((n, st, parts, e['res']))
-    pk = list(part_keys)
-    pres = dict(zip(pk, pmap(pool, 'stream', [part_keys[k] for k in pk])))
-    wres = pmap(pool, 'stream', [st for _, st, _, _ in wholes], chunk=50)
     stream_traces = []
     for (n, st, parts, mres), w in zip(wholes, wres):
         stream_traces.append({'kind': 'stream', 'whole': w, 'parts': [pres[hashable(stepkey(p))] for p in parts]})
